@@ -149,6 +149,15 @@ def warm():
     print("setup: yardl + harness built in %.1fs" % (time.time() - t))
 
 
+def _die_with_parent():
+    """PR_SET_PDEATHSIG: a harness process that hangs (busy loop in the code under test) must not outlive a killed worker."""
+    try:
+        import ctypes
+        ctypes.CDLL("libc.so.6", use_errno=True).prctl(1, signal.SIGKILL)
+    except Exception:  # noqa
+        pass
+
+
 class HarnessProc:
     """Interactive harness sub-process: one JSON request -> one JSON response.
     If the process dies on a request (os.Exit / fatal error / OOM kill), the response is
@@ -168,7 +177,7 @@ class HarnessProc:
             cmd = ["sh", "-c", "ulimit -v %d; exec \"$@\"" % self.vlimit_kb, "sh"] + cmd
         self.errf = tempfile.TemporaryFile(dir=scratch())
         self.p = subprocess.Popen(cmd, stdin=subprocess.PIPE, stdout=subprocess.PIPE, stderr=self.errf,
-                                  env=self.env, cwd=self.cwd)
+                                  env=self.env, cwd=self.cwd, preexec_fn=_die_with_parent)
 
     def call(self, req, timeout=60):
         if self.p is None or self.p.poll() is not None:
